@@ -1,17 +1,7 @@
-"""Texts of MANIFEST.json entries (see tools/gen_manifest.py)."""
+"""Texts of MANIFEST.json entries (see tools/gen_manifest.py); per-property text is in tools/propcfg/."""
+from props import MANIFESTS
 HOOK_COMMITS = []
-
 ALL = ["C%02d" % i for i in range(1, 21)]
-
-CHECKS = {
-    "C19": {
-        "category": "proof",
-        "design_ref": "DESIGN.md §5 C19",
-        "technique": "Lean 4 theorems over a faithful model of NewlineCache + equality correspondence with the Rust code",
-        "text": "Theorems (Props/C19.lean): feeding in any chunks = feeding the whole text; line number = 1 + newlines before the offset for every offset; line/column formula for every character boundary with CR LF counted once; span_line_bytes never panics and returns exactly [start of the line containing span.start, end of the line containing offset span.end] for every start <= end. Proved for all texts by induction, no size bound. The model is a line-by-line transcription of newlinecache.rs and is compared with the real code on every query of every generated text on each run.",
-        "note": "Trusted: Lean kernel (+propext/Classical.choice/Quot.sound), the transcription (checked differentially, incl. all texts over a 4-letter alphabet up to length 4/6 and every chunking of the short ones), binary_search modelled by its contract, harness and orchestrator. The LRNonStreamingLexer glue (line_col, span_lines_str) is checked against the cache on the same cases, not modelled.",
-    },
-}
-
+CHECKS = MANIFESTS
 _REASON = "not yet built in this round: no Lean model/tie committed for it yet (see DESIGN.md §8 for the build order); it is not claimed rather than decided by another technique"
 NOT_APPLICABLE = [{"property_id": p, "reason": _REASON} for p in ALL if p not in CHECKS]
